@@ -284,6 +284,35 @@ def run(prog, tier):
     if bb is None and len(rets) == 1:
         bb = pmatch(rets[0], "minimize_scalar(lambda z: -self.__call__(z), bounds=(_lo, _hi), method='bounded').x")
     ok = bb is not None and "self.sample" in bb["_lo"] and "self.sample" in bb["_hi"]
+    # ... and that maximiser is what the estimator reports as its mode
+    kin = kc.methods.get("__init__")
+    msites = [st_ for st_ in ast.walk(kin) if isinstance(st_, ast.Assign) and len(st_.targets) == 1 and U(st_.targets[0]) == "self.mode"]
+    okm = len(msites) >= 1 and all(U(Resolver(kin, prog, kc.module, kc).term(st_.value, st_)) == "self.locate_mode()" for st_ in msites)
+    obs.append(struct_ob("mode-is-argmax", qual(kc, kin) + "[mode]", okm,
+                         f"GaussianKDE.mode must be the result of locate_mode() (the bounded maximiser of the estimate's own density); it is "
+                         f"`{U(msites[0].value)[:100] if msites else None}`", KDE, msites[0].lineno if msites else kin.lineno, tier="F"))
+    # intervals are read through the estimator's own cdf (DensityEstimator.interval), and moments are integrals of its own density:
+    # no estimator replaces them by statistics of the raw sample
+    de_ = prog.cls("DensityEstimator")
+    for sub_ in prog.subclasses("DensityEstimator"):
+        over = [m_ for m_ in ("interval", "__hdi_cost", "_DensityEstimator__hdi_cost") if m_ in sub_.methods]
+        obs.append(struct_ob("hdi-cost-form", f"{sub_.module.name}.{sub_.name}[interval-inherited]", not over,
+                             f"{sub_.name} overrides {over}: its interval is no longer the one decided for DensityEstimator.interval "
+                             f"(equal end densities, requested mass under the estimator's own cdf)", sub_.module.relpath,
+                             sub_.methods[over[0]].lineno if over else sub_.node.lineno, tier="E"))
+        mo = sub_.methods.get("moments")
+        if mo is not None:
+            rzm = Resolver(mo, prog, sub_.module, sub_)
+            terms_ = rzm.return_terms()
+            uses_density = any(isinstance(x, ast.Call) and U(x.func) in ("self.__call__", "self", "self.evaluate_model", "self.log_pdf_model")
+                               for t_ in terms_ for x in ast.walk(t_))
+            from_sample = [U(x)[:60] for t_ in terms_ for x in ast.walk(t_)
+                           if isinstance(x, ast.Call) and U(x.func).split(".")[-1] in ("mean", "var", "std", "median", "average", "cov", "skew", "kurtosis")
+                           and any(isinstance(y, ast.Attribute) and y.attr in ("sample", "fitted_samples") and U(y.value) == "self" for y in ast.walk(x))]
+            obs.append(struct_ob("units-result-types", f"{sub_.module.name}.{sub_.name}.moments[of-the-estimate]", uses_density and not from_sample,
+                                 f"moments must be integrals of the estimator's own density" + (f"; `{from_sample[0]}` is a statistic of the raw sample "
+                                 f"(a kernel estimate has variance sample variance + h^2, and its mean / skewness / kurtosis differ likewise)"
+                                 if from_sample else "; the returned terms never evaluate the density"), sub_.module.relpath, mo.lineno, tier="F"))
     obs.append(struct_ob("mode-is-argmax", qual(kc, lm), ok,
                          f"the mode must be the bounded minimiser of -density over an interval taken from the sample; returned term: "
                          f"`{U(rets[0])[:300] if rets else None}`", KDE, lm.lineno, slots={"bounds": bb}))
